@@ -132,6 +132,33 @@ for sh, K, V in (("u8", "u8", "u8"), ("id", "Key", "u8")):
     add("c01_clear_" + sh, "c01::h_clear::<%s, %s, {N}>()" % (K, V), ["C01", "C05"], Q3, T4, fn="Map::clear", shape=S)
     add("c01_drain_" + sh, "c01::h_drain_view::<%s, %s, {N}>()" % (K, V), ["C01", "C10"], Q3, T3, fn="Map::drain", shape=S)
 
+# ------------------------------------------------------------------ C02 / C04 (ledger + unwind monitor)
+for w, P, nm in ((False, ["C02"], "own"), (True, ["C04"], "unw")):
+    ws = "true" if w else "false"
+    for i, op in enumerate(("insert", "insert_key_value", "checked_insert", "insert_unchecked")):
+        add("%s_%s" % (nm, op), "life::h_insert::<{N}>(%d, %s)" % (i, ws), P + (["C18"] if i == 3 and not w else []),
+            N_(1, 2) if i != 2 else Q3, T3 if i == 2 else N_(1, 2, 3), fn="Map::" + op, shape="S_tok")
+    for i, op in enumerate(("remove", "remove_entry")):
+        add("%s_%s" % (nm, op), "life::h_remove::<{N}>(%d, %s)" % (i, ws), P, Q3, T3, fn="Map::" + op, shape="S_tok")
+    add("%s_lookup" % nm, "life::h_lookup::<{N}>(%s)" % ws, P, Q3, T3, fn="Map::get/get_mut/get_key_value/contains_key", shape="S_tok")
+    add("%s_retain" % nm, "life::h_retain::<{N}>(%s)" % ws, P, Q3, T3, fn="Map::retain", shape="S_tok")
+    add("%s_clear" % nm, "life::h_clear::<{N}>(%s)" % ws, P, Q3, T3, fn="Map::clear", shape="S_tok")
+    add("%s_drain" % nm, "life::h_drain::<{N}>(%s)" % ws, P + ["C10"], Q3, T3, fn="Map::drain, Drain::next, Drain::drop", shape="S_tok")
+    add("%s_clone" % nm, "life::h_clone::<{N}>(%s)" % ws, P + ["C15"], Q3, T3, fn="Clone::clone for Map", shape="S_tok")
+    add("%s_eq" % nm, "life::h_eq::<{N}, {M}>(%s)" % ws, P, NM([(0, 0), (1, 1), (2, 1), (2, 2)]), NM([(1, 2), (2, 2), (3, 2), (3, 3)]),
+        unwind="max(N,M)+2", fn="PartialEq::eq for Map", shape="S_tok")
+    for i, op in enumerate(("or_insert", "or_insert_with", "or_insert_with_key", "and_modify_or_insert",
+                            "remove_or_into_key", "insert", "remove_entry")):
+        add("%s_entry_%s" % (nm, op), "life::h_entry::<{N}>(%d, %s)" % (i, ws), P, N_(1, 2), N_(1, 2, 3), fn="Map::entry / Entry::" + op, shape="S_tok")
+    for i, op in enumerate(("insert", "replace", "remove", "take", "retain", "clear", "contains_get", "drain", "clone")):
+        add("%s_set_%s" % (nm, op), "life::h_set::<{N}>(%d, %s)" % (i, ws), P, N_(1, 2) if i < 2 else Q3, N_(1, 2, 3) if i < 2 else T3,
+            fn="Set::" + op, shape="S_tok (sets)")
+for i, op in enumerate(("into_iter", "into_keys", "into_values")):
+    add("own_" + op, "life::h_into_iter::<{N}>(%d)" % i, ["C02", "C10"], Q3, T3, fn="Map::%s, IntoIter::next, drop" % op, shape="S_tok")
+add("own_drop", "life::h_drop::<{N}>()", ["C02"], Q3, T3, fn="Drop::drop for Map", shape="S_tok")
+add("own_from_iter", "life::h_from_iter::<{N}, {L}>()", ["C02", "C16"], [{"N": 1, "L": 2}, {"N": 2, "L": 3}], [{"N": 2, "L": 4}, {"N": 3, "L": 4}],
+    unwind="max(N,L)+2", fn="FromIterator::from_iter for Map", shape="S_tok")
+
 
 def units_for(prop):
     return [u for u in UNITS if prop in u.props or "*" in u.props]
